@@ -1,5 +1,6 @@
 import MxModel.Exec.Mech
 import MxModel.Exec.Expr
+import MxModel.Exec.Spelled
 import Driver.Sexp
 /-! Line-protocol driver for the Exec layer (executor, cache, graphs). -/
 namespace Driver.Exec
@@ -31,6 +32,8 @@ structure World where
   signature of a cells id is fixed for the whole history (as its space is); formulas are read with
   the table in hand, so `sig` lines come before any formula -/
   sigs : List (CellId × Nat × List Val) := []
+  /-- `System._recalc_dependents` (`mx.set_recalc`) -/
+  recalc : Bool := false
 
 def World.cell? (w : World) (c : CellId) : Option CellDef :=
   (w.cells.find? (·.1 == c)).map (·.2)
@@ -175,6 +178,7 @@ def step (w : World) (line : String) : World × String :=
       ({ w with st := w.st.admin a, tracing := a.tracing w.tracing },
        if a == .getRecursion then s!"ok {w.env.maxdepth}" else "ok")
     | none => (w, "bad-op")
+  | ["recalc", b] => ({ w with recalc := b = "on" }, "ok")
   | ["maxdepth", n] => match n.toNat? with
     | some n => ({ w with maxdepth := n }, "ok")
     | none => (w, "bad-op")
@@ -205,14 +209,15 @@ def step (w : World) (line : String) : World × String :=
       match w.cell? id with
       | none => (w, if w.declared id then "err Deleted" else "err Name")
       | some d =>
-        match d.bind sp with
-        | none => (w, "err Type")
-        | some key =>
-        let (r, st') := evalTop w.env (id, key) w.st
+        -- `evalSpelled`: bind (`get_node`), then `evalTop` of the bound element
+        match evalSpelled w.env id d.nparams d.defaults sp.1 sp.2 w.st with
+        | (.typeError, _) => (w, "err Type")
+        | (.res r, st') =>
+        let le := match d.bind sp with | some key => some ((id, key), w.st) | none => w.lastEval
         match r with
-        | .ok v => ({ w with st := st', lastEval := some ((id, key), w.st) }, "ok " ++ showVal v)
+        | .ok v => ({ w with st := st', lastEval := le }, "ok " ++ showVal v)
         | .formulaError e tb =>
-          ({ w with st := st', lastEval := some ((id, key), w.st) },
+          ({ w with st := st', lastEval := le },
            s!"err Formula {showErr e} tb=" ++ ",".intercalate (tb.map showNode))
     | _, _ => (w, "bad-op")
   | "set" :: id :: rest =>
@@ -228,6 +233,12 @@ def step (w : World) (line : String) : World × String :=
           match d.bind (args, []) with
           | none => (w, "err Type")
           | some key =>
+          if w.recalc then
+            -- recalculation option on: the former leaf dependents are evaluated at once
+            let (st', r) := w.st.setValueRecalc w.env (id, key) v
+            ({ w with st := st' }, match r with
+              | .ok => "ok" | .refused _ => "err NoneReturned" | .failed _ _ _ => "err Formula")
+          else
           let (st', e) := w.st.setValue w.env (id, key) v
           ({ w with st := st' }, match e with | none => "ok" | some _ => "err NoneReturned")
       | _, _ => (w, "bad-op")
